@@ -68,6 +68,10 @@ impl CookieStash {
     }
 }
 
+#[cfg(pendulum_project_ntpd_rs_verif)]
+#[path = "/verif/hooks/ntp_proto/cookiestash_probe.rs"]
+mod verif_probe;
+
 #[cfg(test)]
 mod tests {
     use super::*;
